@@ -26,7 +26,7 @@ ASSUMPTIONS = [
 ]
 BUDGET = {
     "quick": {"examples": 1500, "wall_s": 90, "shards": 4},
-    "thorough": {"examples": 10000, "wall_s": 900, "shards": 16},
+    "thorough": {"examples": 20000, "wall_s": 1500, "shards": 16},
 }
 
 
@@ -209,8 +209,10 @@ def cli_side_effects(desc, defects):
                 viols.append(Violation({"kind": "command-succeeded-on-invalid-workflow", "cmd": args[0]},
                                        f"`gwf {' '.join(args)}` exits 0 on a workflow with {sorted(defects)}"))
             else:
+                # the kind of error is decided at the API tier (exception class); here: a clean error, not a crash,
+                # and if the message is one of the three known wordings it must be one that applies
                 named = {k for frag, k in MSG_KIND if frag in r.err}
-                if r.crashed or not (named & defects):
+                if r.crashed or (named and not (named & defects)):
                     viols.append(Violation({"kind": "error-does-not-name-applicable-defect", "cmd": args[0]},
                                            f"`gwf {' '.join(args)}`: {r.brief()}; applicable {sorted(defects)}"))
             d = proj.snap_diff(before, proj.snapshot())
